@@ -221,7 +221,7 @@ func classifyErrorReturns(c *Ctx, g *ssa.Function, idx int, depth int) string {
 		if idx >= len(ri.Vals) || isNilConst(ri.Vals[idx]) {
 			continue
 		}
-		for _, sc := range selectingConds(ri.Ret.Block(), map[*ssa.BasicBlock]bool{}) {
+		for _, sc := range selectingConds(ri.At, map[*ssa.BasicBlock]bool{}) {
 			if w := classifyRejection(c, g, sc.cond, depth); w != "" {
 				return w
 			}
@@ -287,7 +287,7 @@ func checkNoRequestCheckAfterEffect(c *Ctx, r *Report, f *ssa.Function, rule str
 		}
 		after := false
 		for _, cc := range ccCalls {
-			if canReach(cc, ri.Ret) {
+			if canReach(cc, ri.Point()) {
 				after = true
 			}
 		}
@@ -295,7 +295,7 @@ func checkNoRequestCheckAfterEffect(c *Ctx, r *Report, f *ssa.Function, rule str
 			continue
 		}
 		n++
-		conds := selectingConds(ri.Ret.Block(), map[*ssa.BasicBlock]bool{})
+		conds := selectingConds(ri.At, map[*ssa.BasicBlock]bool{})
 		var descs []string
 		bad := ""
 		for _, sc := range conds {
